@@ -160,6 +160,8 @@ def run(ctx):
     ctx.assumptions += ["input files in the documented format; leaf names <species>_<id>; draw runs with a stub TeX "
                         "measurer (no TeX engine in the sandbox)"]
     cases = make_cases(rng, ctx.tier)
+    if len(cases) > 9000:     # the 4-leaf naming space is sampled
+        cases = rng.sample(cases, 9000)
 
     # ---- E1 ------------------------------------------------------------------
     lit = [Rec(ot=c["ot"], onames=c["onames"], st=c["st"], snames=c["snames"], alg=c["alg"], hassyn=c["hassyn"])
